@@ -1127,9 +1127,14 @@ class Interp:
         if hook is not None:
             hook(self, bound)
         if spec is not None and not is_top and not force_inline:
-            self.contract_calls.add(fi.dotted)
-            r = self.registry.apply_contract(self, spec, fi, bound)
-            return Coro(r) if fi.is_async else r
+            from .values import InlineInstead
+
+            try:
+                r = self.registry.apply_contract(self, spec, fi, bound)
+                self.contract_calls.add(fi.dotted)
+                return Coro(r) if fi.is_async else r
+            except InlineInstead:
+                pass
         if not is_top:
             self.inlined.add(fi.dotted)
         env = Env(fi.module, closure_env)
